@@ -704,3 +704,15 @@ def dict_sets(body):
                     k = _const_bytes_through(body, dk[3]["args"][0])
             out.append((k, c.args[2], c))
     return out
+
+
+def canon_callee(F, c):
+    """canonical (module-independent) name of a crate-local callee, else the trait-level foreign name."""
+    if c.local and c.name in F.bodies:
+        return F.canon_of(F.bodies[c.name])
+    return c.fn or c.name
+
+
+def local_calls(F, b, suffix):
+    """crate-local call sites whose canonical callee name ends with `suffix`."""
+    return [c for c in b.calls if c.local and canon_callee(F, c).endswith(suffix)]
